@@ -114,8 +114,25 @@ def generate(rng, tier):
             vals = [v + 16777217 for v in vals]
         call = {"func": rng.choice(OPS), "axes": op_axes, "to": to,
                 "boundary": G.kwval(rng, axes, G.WORDS), "fill": G.kwval(rng, axes, [0, 5, -1, 9, -1.5, 2.25])}
+        # the data may be held lazily (dask): chunked along extra dimensions, along axes not operated on, and
+        # along operated axes that move between centre, left and right only (chunking an axis that goes to or
+        # from inner / outer is refused by design, C06)
+        lazy = None
+        if rng.random() < 0.25 and dtype != "int64":
+            # (floating-point data only: a lazy INTEGER array through interp declares an integer result --
+            # see DESIGN 12.2, observed and outside the quantifiers)
+            lazy = {}
+            pos_of = {d: (a, p) for a, cs in coords for p, d in cs}
+            for d, n in dims:
+                ok = True
+                if d in pos_of and pos_of[d][0] in op_axes:
+                    a, frm = pos_of[d]
+                    t_ = to if isinstance(to, str) else (to or {}).get(a)
+                    ok = frm in ("center", "left", "right") and t_ in ("center", "left", "right")
+                if ok and n > 1 and rng.random() < 0.7:
+                    lazy[d] = (n + 1) // 2
         cases.append({"ctor": ctor, "dims": dims, "vals": vals, "call": call, "dtype": dtype,
-                      "warmup": rng.random() < 0.3})
+                      "warmup": rng.random() < 0.3, "lazy": lazy})
     return cases
 
 
@@ -128,6 +145,8 @@ def run_impl(case):
     shape = [l for _, l in case["dims"]]
     da = xr.DataArray(np.array(case["vals"], dtype=case.get("dtype", "float64")).reshape(shape),
                       dims=[d for d, _ in case["dims"]])
+    if case.get("lazy"):
+        da = da.chunk(case["lazy"])
     kwargs = {}
     if k["to"] is not None:
         kwargs["to"] = k["to"]
